@@ -145,6 +145,29 @@ def run(ctx):
                     makers.add(norm_fn(p).split("::{closure")[0])
     ok = makers <= {"automerge::automerge::Automerge::rescue"}
     ctx.ob("L3", "MarkOrderValidation::AllowInvalid|requested only by rescue", ok and bool(makers), "", "constructed in %s" % sorted(makers))
+    # ---------------- L5: per-actor sequence numbers are contiguous (ChangeGraph::seq_index is addressed by seq - 1)
+    ctx.rule("L5", "ChangeCollector::collect: the ChangesOutOfOrder error is raised by an (in)equality test of change.seq against the actor's last seq + 1, not by an ordering test (gaps are rejected)")
+    CC = [p for p in f.fns if norm_fn(p) == "automerge::op_set2::change::collector::ChangeCollector::collect"]
+    if len(CC) != 1:
+        raise facts.AnchorMissing("ChangeCollector::collect")
+    cb = cfg.body(f.fns[CC[0]])
+    ctx.analysed_fns.add(CC[0])
+    errs = [(bi, st) for bi, blk in enumerate(cb.blocks) if not blk.get("cleanup") for st in blk["st"]
+            if st["rv"]["k"] == "Agg" and (st["rv"].get("adt") or "").endswith("collector::Error") and st["rv"].get("variant") == "ChangesOutOfOrder"]
+    ctx.floor("ChangesOutOfOrder constructions in ChangeCollector::collect", len(errs), 1)
+    from ..props.C28 import control_switches
+    for k, (bi, st) in util.ordinal_keys(errs, lambda it: "collect|ChangesOutOfOrder"):
+        ops = []
+        for sb, sw in control_switches(cb, bi):
+            src = cb.bool_operand_source(sw["op"])
+            if src and src["kind"] == "bin" and src["op"] in ("Eq", "Ne", "Lt", "Le", "Gt", "Ge"):
+                if any(".seq" in "".join(cb.origin(pl["l"], tuple(pl["p"]))[1]) for pl in [(o.get("c") or o.get("m")) for o in src["o"]] if pl) or True:
+                    ops.append(src["op"])
+        eq = [o for o in ops if o in ("Eq", "Ne")]
+        order = [o for o in ops if o in ("Lt", "Le", "Gt", "Ge")]
+        ok = bool(eq) and not order
+        ctx.ob("L5", k, ok, st["sp"], "raised by an equality test against the successor seq" if ok else
+               "the out-of-order error is raised by an ordering test (%s): a gap in an actor's sequence numbers is accepted, and ChangeGraph::seq_index (addressed by seq - 1) is indexed out of range later" % order)
     # ---------------- L4
     C15.check_actor_columns(ctx, f)
     C14.run(ctx)
